@@ -1,6 +1,6 @@
 (** C11 correspondence entries. *)
 From Coq Require Import String.
-From BV Require Import Base.Prelude Base.Codec Conc.Pipe Conc.Sched Conc.Status.
+From BV Require Import Base.Prelude Base.Codec Conc.Pipe Conc.Sched Conc.Status Conc.Known.
 
 (** ---- c11_sched: <C> then per stage: <S|I> <drop> <take|n> <emit 0/1> <srccount>
     Source data of stage i are the ids i*2^24 + [0..count). Output, for the producer-first, the
@@ -8,12 +8,16 @@ From BV Require Import Base.Prelude Base.Codec Conc.Pipe Conc.Sched Conc.Status.
 Definition dec_take (s : str) : option nat :=
   match s with 110%N :: _ => None | _ => Some (dec_nat s) end.
 
+(** [count] consecutive ids from [start] (linear; [N.of_nat] per element would be quadratic) *)
+Fixpoint nseq (count : nat) (start : N) : list N :=
+  match count with O => [] | S c => start :: nseq c (start + 1)%N end.
+
 Fixpoint dec_stages (fuel : nat) (i : N) (a : list str) : list (stage N) :=
   match fuel with O => [] | S fuel =>
   match a with
   | k :: d :: t :: e :: c :: r =>
       let knd := match k with 73%N :: _ => Inline | _ => Spawned end in
-      let data := map (fun j => (i * 16777216 + N.of_nat j)%N) (seq 0 (dec_nat c)) in
+      let data := nseq (dec_nat c) (i * 16777216)%N in
       mkStage knd NotStarted (dec_nat d) (dec_take t) (dec_bool e) data :: dec_stages fuel (i + 1)%N r
   | _ => []
   end end.
@@ -64,6 +68,16 @@ Definition entry_c11_sched (a : list str) : list str :=
       show_outcome (run_sched C (S C) true fuel (init sgs)) ++
       (* the slowest producer (one unit per step, consumers first); only affordable on small payloads *)
       show_outcome (run_sched C (if (total_units sgs <=? 4096)%nat then 1%nat else S C) true fuel (init sgs))
+  | [] => []
+  end.
+
+(** ---- c11_known: same arguments as c11_sched -> 1 iff the pipeline is in the class of the
+    known finding (a non-final inline stage emitting more than the capacity), then the counts *)
+Definition entry_c11_known (a : list str) : list str :=
+  match a with
+  | c :: r =>
+      let sgs := dec_stages (length r) 0%N r in
+      [enc_bool (known_class N (dec_nat c) sgs); show_nats (counts N 0%nat sgs)]
   | [] => []
   end.
 
